@@ -214,14 +214,15 @@ package getty
 //@   ensures true
 
 //@ func (*GettyRemoting).sendAsync
-//@   prop C14
+//@   prop C14 C15
+//@   ensures written-once-on-an-open-session: session != nil && !ufb("session.closed", session) ==> ghost.wp_calls == 1
 //@   modifies ghost.wp_calls, ghost.wp_err_nil, ghost.wp_id, syncmapp(g.futures)
 //@   requires g != nil && g.futures != nil && ghost.wp_calls == 0
 //@   let k := some(int32, "k")
 //@   let closed := session == nil
 //@   ensures closed-session: session == nil ==> result1 != nil && ghost.wp_calls == 0 && syncmapp(g.futures)[box(msg.ID, int32)] == old(syncmapp(g.futures)[box(msg.ID, int32)])
-//@   ensures write-failed-cleans: ghost.wp_calls == 1 && !ghost.wp_err_nil ==> result1 != nil && syncmapp(g.futures)[box(msg.ID, int32)] == nil
-//@   ensures no-waiter-no-entry: callback == nil ==> syncmapp(g.futures)[box(msg.ID, int32)] == old(syncmapp(g.futures)[box(msg.ID, int32)]) || syncmapp(g.futures)[box(msg.ID, int32)] == nil
+//@   ensures write-failed-cleans: ghost.wp_calls == 1 && !ghost.wp_err_nil ==> result1 != nil && (callback != nil ==> syncmapp(g.futures)[box(msg.ID, int32)] == nil)
+//@   ensures no-waiter-no-entry: callback == nil ==> syncmapp(g.futures)[box(msg.ID, int32)] == old(syncmapp(g.futures)[box(msg.ID, int32)])
 //@   ensures other-requests-untouched: k != msg.ID ==> syncmapp(g.futures)[box(k, int32)] == old(syncmapp(g.futures)[box(k, int32)])
 //@   at call callback:callback#1: assert registered-before-wait: isT(syncmapp(g.futures)[box(msg.ID, int32)], *message.MessageFuture) && syncmapp(g.futures)[box(msg.ID, int32)].(*message.MessageFuture) == arg_respMsg && arg_respMsg.ID == msg.ID && ghost.wp_calls == 1 && ghost.wp_err_nil
 
@@ -281,3 +282,4 @@ package getty
 //@   requires ghost.sent == 0 && !ghost.regrm_sent && !ghost.regtm_sent && sessionManager != nil && session != nil
 //@   ensures announce-tm: ghost.regtm_sent && ghost.sent >= 1
 //@   ensures announce-rm: ghost.has_rm_resources ==> ghost.regrm_sent
+//@   ensures unannounced-session-is-not-kept: called("SendAsyncRequest#1") && callres("SendAsyncRequest#1", 0) != nil ==> !haskey(syncmap(sessionManager, "allSessions"), session)
